@@ -34,3 +34,4 @@ Definition corr (c : Case) : bool :=
 (* the direct oracle of C13 (size hints truthful, construction refused exactly when inconsistent)
    is evaluated on the Rust side; nothing further to check here *)
 Definition oracle (c : Case) : bool := true.
+Definition info (cs : list Case) : list N := [].
